@@ -39,7 +39,8 @@ LEVEL_TEXT = {
             "(operator trees of every arity the model has); so a coherent world stays coherent under every assignment that returns normally, and in a "
             "coherent world every immediately bound property equals its expression recomputed from scratch. (3) Growth (PropGrow.v): coherence is established "
             "and kept by every history that creates properties, attaches plain observers, binds fresh properties (immediate mode, expressions over existing "
-            "properties incl. bound ones, repeated inputs) and assigns to inputs. PARTIAL: observers that write, rebinding / reset / moves / "
+            "properties incl. bound ones, repeated inputs) and assigns to inputs; also by histories that bind existing unbound properties (which may have readers) and call reset(). "
+            "PARTIAL: observers that write, direct rebinding of a bound property, moves and "
             "destruction between assignments are covered by the extracted checker check_c02 on every reached world and by correspondence; known finding "
             "KF-C02-aborted-walk (an exception cutting a notification walk short) is re-confirmed on every run.", '6/C02'),
     'C03': ("Machine-checked on the executable model of Property::setHelper: an equal value changes nothing and logs nothing; any other value notifies every "
@@ -54,8 +55,8 @@ LEVEL_TEXT = {
             "of its expression, for every network, interpretation and delivery order. (3) Refinement and growth (PropSimLazy.v, PropGrowLazy.v): in worlds all "
             "of whose bindings belong to one explicit evaluator and whose observers do not act, setHelper of the executable model is the abstract marking "
             "assignment and evaluateAll the abstract pass; these state conditions hold in every world reached by creating properties, plain observers, fresh "
-            "evaluator-driven bindings, assignments and evaluateAll; hence after one evaluateAll over bindings registered in dependency order every "
-            "registered bound property equals its expression recomputed from scratch. PARTIAL: mixed worlds (immediate and evaluator-driven bindings "
+            "evaluator-driven bindings, assignments and evaluateAll, and in such a network the registration order is a duplicate-free dependency order; hence "
+            "after ONE evaluateAll every registered bound property equals its expression recomputed from scratch (no further premise). PARTIAL: mixed worlds (immediate and evaluator-driven bindings "
             "together, several evaluators, acting observers, rebinding/reset/moves/destruction) are covered by the extracted checker "
             "check_c06_after_evalall on every evaluateAll of every generated history and by correspondence.", '6/C06'),
     'C07': ("Machine-checked on the executable model: every direct write to a bound property raises ReadOnlyProperty and leaves the world unchanged; reset keeps "
